@@ -90,9 +90,21 @@ func TestC05(t *testing.T) {
 		cases = append(cases, mon.CaseSpec{Name: "recvfail", Spec: c05Spec{Proto: cooked[i%2], Mode: "recvfail", NCtx: 1 + rnd.Intn(4), NPipes: 1 + rnd.Intn(4), NOps: 2 + rnd.Intn(4),
 			TTL: chainTTL(rnd, ndev), NDev: ndev, Tr: pickHops(rnd, ndev)}})
 	}
+	// the next Recv posted (by another goroutine, still parked) before the request in hand is answered
+	nrp := r.Pick(200, 3000)
+	for i := 0; i < nrp; i++ {
+		ndev := 0
+		if rnd.Intn(5) == 0 {
+			ndev = 1 + rnd.Intn(2)
+		}
+		cases = append(cases, mon.CaseSpec{Name: "recvposted", Spec: c05Spec{Proto: cooked[i%2], Mode: "recvposted", NCtx: 1 + rnd.Intn(4), NPipes: 1 + rnd.Intn(4), NOps: 2 + rnd.Intn(4),
+			TTL: chainTTL(rnd, ndev), NDev: ndev, Tr: pickHops(rnd, ndev)}})
+	}
 	r.Run(cases, func(c *mon.Case) {
 		sp := c.Spec.(c05Spec)
 		switch sp.Mode {
+		case "recvposted":
+			c05RecvPosted(c, sp)
 		case "recvfail":
 			c05RecvFail(c, sp)
 		case "cookedtimeout":
@@ -175,6 +187,7 @@ type seqCtx struct {
 	pending     *reqSt // last received, not yet answered
 	afterFailed bool   // a Recv failed since
 	nfailed     int    // how many
+	posted      bool   // a Recv is parked on the context right now (known parked, nothing for it to receive)
 }
 
 type seqRun struct {
@@ -188,7 +201,8 @@ type seqRun struct {
 	inflt int // drops between Recv and Send
 
 	afterFail int // replies accepted after a failed Recv on the context
-	gaveUp    int // respondent: Sends refused after a failed Recv on the context
+	gaveUp    int // respondent: Sends refused after a failed Recv on the context / with a Recv posted on it
+	postedAns int // replies accepted while the context's next Recv was already posted
 }
 
 func (s *seqRun) note(f string, a ...interface{}) {
@@ -257,6 +271,12 @@ func (s *seqRun) recv(i int, deadline time.Duration) bool {
 	if !c.AwaitOrViolate(r.proto+"/recv-stuck", fmt.Sprintf("ctx %d Recv with %d undelivered request(s) on open connections (deadline %v)", i, s.avail(), deadline), call.Done, mon.AwaitOpts{MaxTimer: deadline}) {
 		return false
 	}
+	return s.recvDone(i, call, deadline)
+}
+
+// recvDone judges the result of a Recv on context i that has returned.
+func (s *seqRun) recvDone(i int, call *mon.Call, deadline time.Duration) bool {
+	c, r := s.c, s.r
 	v, err, _ := call.Result()
 	if err != nil {
 		if deadline > 0 && err == mangos.ErrRecvTimeout {
@@ -355,8 +375,12 @@ func (s *seqRun) send(i int, dropAfter bool) bool {
 	a.err, a.returned = err, true
 	r.mu.Unlock()
 	nfailed := cx.nfailed
+	posted := cx.posted
 	cx.pending, cx.afterFailed, cx.nfailed = nil, false, 0
 	c.Count("sends", 1)
+	if posted {
+		c.Count("sends_with_next_recv_posted_on_context", 1)
+	}
 	switch {
 	case q == nil:
 		s.note("s%d!", i)
@@ -382,6 +406,21 @@ func (s *seqRun) send(i int, dropAfter bool) bool {
 		c.Count("respondent_send_after_failed_recv_protostate", 1)
 		s.gaveUp++
 		return true
+	case posted && err == mangos.ErrProtoState:
+		r.mu.Lock()
+		a.req = nil
+		r.mu.Unlock()
+		s.note("s%d?", i)
+		if r.kind != "respondent" {
+			// a Recv that is still waiting has received nothing: the context's last received request is
+			// the one in hand, and the reply answers that one
+			c.Violate(r.proto+"/pending-request-lost-by-posted-recv", "ctx %d received request %d (connection %d, dropped=%v), posted its next Recv (parked, nothing queued for it), then Send returned %v: the request received last was not answered", i, q.serial, q.pipe.n, a.dropBefore, err)
+			return false
+		}
+		// a respondent context gives up the survey it holds as soon as it asks for the next one
+		c.Count("respondent_send_with_recv_posted_protostate", 1)
+		s.gaveUp++
+		return true
 	case a.dropBefore:
 		s.note("s%dx", i)
 		if err != nil && err != mangos.ErrClosed {
@@ -398,6 +437,10 @@ func (s *seqRun) send(i int, dropAfter bool) bool {
 	if a.afterFailed {
 		c.Count("send_after_failed_recv_answered", 1)
 		s.afterFail++
+	}
+	if posted {
+		c.Count("send_with_next_recv_posted_answered", 1)
+		s.postedAns++
 	}
 	if q.depth >= 1 {
 		s.deep++
